@@ -235,6 +235,7 @@ def run(ch: Choices, opts: Dict[str, Any]) -> Dict[str, Any]:
     reset_globals()
     trace = Trace()
     calm = ch.flag(1, 8, "calm")
+    deep = (not calm) and opts.get("tier") == "thorough" and ch.flag(1, 2, "deep")   # deeper bounds in half of the thorough runs
     n_apps = 1 if calm else 1 + ch.draw(3, "napps")
     mode = "time" if calm or ch.flag(1, 3, "mode") else "mix"
     sched = Sched(ch, trace, mode=mode, max_cost=0 if calm else 50)
@@ -250,7 +251,7 @@ def run(ch: Choices, opts: Dict[str, Any]) -> Dict[str, Any]:
     progs_digest = []
     for a in range(n_apps):
         unit = 1 + ch.draw(4, "unit")
-        n_subs = 1 + ch.draw(4, "nsubs")
+        n_subs = 1 + ch.draw(10 if deep else 4, "nsubs")
         g = Gen(ch, unit, plant=ch.flag(1, 2, "plantflag"))
         progs = [g.program(first=(k == 0)) for k in range(n_subs)]
         if g.planted:
